@@ -8,6 +8,7 @@ import (
 	"os/exec"
 	"path/filepath"
 	"regexp"
+	"runtime"
 	"sort"
 	"strings"
 	"sync"
@@ -83,9 +84,26 @@ type solveResult struct {
 	solver string
 }
 
+// solverSlots bounds the number of solver processes that run at the same time to the number of logical CPUs (the three-solver race used to start up to 48 on 16): a
+// query's budget then measures the solver, not the scheduler (under three-fold oversubscription a 3 s proof
+// was seen to take 30 s and time out).
+var solverSlots = make(chan struct{}, runtime.NumCPU())
+
 func runSolver(s Solver, file string, timeoutMs int) solveResult {
+	return runSolverCtx(context.Background(), s, file, timeoutMs)
+}
+
+// runSolverCtx: as runSolver; the run is abandoned (and its slot freed) when parent is cancelled - the losers of
+// a race do not keep computing once one solver has decided the query.
+func runSolverCtx(parent context.Context, s Solver, file string, timeoutMs int) solveResult {
+	select {
+	case solverSlots <- struct{}{}:
+	case <-parent.Done():
+		return solveResult{status: "timeout", solver: s.Name, out: "abandoned: another solver decided the query"}
+	}
+	defer func() { <-solverSlots }()
 	args := s.Args(file, timeoutMs)
-	ctx, cancel := context.WithTimeout(context.Background(), time.Duration(timeoutMs+2000)*time.Millisecond)
+	ctx, cancel := context.WithTimeout(parent, time.Duration(timeoutMs+2000)*time.Millisecond)
 	defer cancel()
 	cmd := exec.CommandContext(ctx, args[0], args[1:]...)
 	var out bytes.Buffer
@@ -96,6 +114,13 @@ func runSolver(s Solver, file string, timeoutMs int) solveResult {
 	secs := time.Since(t0).Seconds()
 	text := out.String()
 	first := strings.TrimSpace(strings.SplitN(text, "\n", 2)[0])
+	// solver warnings (z3: "WARNING: 'if' cannot be used in patterns") precede the answer
+	for _, ln := range strings.Split(text, "\n") {
+		if t := strings.TrimSpace(ln); t != "" && !strings.HasPrefix(t, "WARNING:") {
+			first = t
+			break
+		}
+	}
 	r := solveResult{out: text, secs: secs, solver: s.Name}
 	switch first {
 	case "unsat", "sat", "unknown":
@@ -185,6 +210,8 @@ func discharge(fr *FuncResult, o *Obligation, dir string, timeoutMs int, idx int
 	if r.status != "sat" && r.status != "unsat" {
 		ch := make(chan solveResult, 3)
 		var wg sync.WaitGroup
+		rctx, rcancel := context.WithCancel(context.Background())
+		defer rcancel()
 		for _, s := range solvers {
 			if s.Name == "z3-new" && first == timeoutMs {
 				continue
@@ -192,7 +219,7 @@ func discharge(fr *FuncResult, o *Obligation, dir string, timeoutMs int, idx int
 			wg.Add(1)
 			go func(s Solver) {
 				defer wg.Done()
-				ch <- runSolver(s, file, timeoutMs)
+				ch <- runSolverCtx(rctx, s, file, timeoutMs)
 			}(s)
 		}
 		go func() { wg.Wait(); close(ch) }()
@@ -219,9 +246,16 @@ func discharge(fr *FuncResult, o *Obligation, dir string, timeoutMs int, idx int
 	if tentative != nil && final.status != "sat" && final.status != "unsat" {
 		final = *tentative
 	}
+	if kd := os.Getenv("GOVC_KEEPQ"); kd != "" && (final.status != o.Expect || time.Since(t0).Seconds() > 10) {
+		os.WriteFile(filepath.Join(kd, regexp.MustCompile(`[^A-Za-z0-9_.-]+`).ReplaceAllString(o.Name, "_")+fmt.Sprintf("_%d.smt2", idx)), []byte(q), 0o644)
+	}
 	o.Status = final.status
 	o.Solver = final.solver
-	o.Seconds = time.Since(t0).Seconds()
+	// the deciding solver's own run time (waiting for a free slot is not solver time)
+	o.Seconds = final.secs
+	if o.Seconds == 0 {
+		o.Seconds = time.Since(t0).Seconds()
+	}
 	o.Output = final.out
 	if final.status == "sat" {
 		o.Model = final.out
